@@ -82,7 +82,8 @@ def main(argv=None):
     p = dsl.REG.props[pid]
     timeout = 10.0 if tier == "quick" else 60.0
     allb = tier == "thorough"
-    units = [("fuc", f, timeout, allb, REPO) for f in p["fucs"]] + [("lemma", l, timeout, allb, REPO) for l in p["lemmas"]]
+    units = [("fuc", f, timeout, allb, REPO) for f in p["fucs"]] + [("lemma", l, timeout, allb, REPO) for l in p["lemmas"]] \
+        + [("static", x, timeout, allb, REPO) for x in p.get("static", [])]
     # bounded stand-in runs concurrently (own process, real code under /venv)
     bounded_proc = None
     bfile = os.path.join(HERE, "replay", pid.lower() + ".py")
